@@ -72,7 +72,8 @@ func (v *VerifSup) StepNext(hook func()) (ev int, ok bool) {
 	v.s.step(fsmEvent(ev))
 	v.s.testHookAfterStateLoad = nil
 	v.drain()
-	return ev, true
+	// the kind only: a queued event may carry a stamp in its upper bits (fix for stale events)
+	return ev & 0xff, true
 }
 
 // Notifications drains the notification channel (what the notifier would deliver next).
